@@ -191,6 +191,38 @@ def r31(facts, res):
     res.count('R3.1 rows', len(rows))
 
 
+def order_constraint(c, v, cell_local):
+    """A tested condition that orders the new production against the production decoded from the cell:
+    returns (orderings of new-vs-cell it allows: subset of {-1, 0, 1}, new term, cell term), 'same-side' when both or neither operand
+    come from the cell, or None when the condition is not an ordering test.  `a.cmp(b)`, `a < b`, `a <= b`, `a == b` are all read."""
+    if c[0] == 'discr' and c[1][0] == 'cmp':
+        op, a, d = 'cmp', c[1][1], c[1][2]
+    elif c[0] == 'bin' and c[1] in ('Lt', 'Le', 'Eq'):
+        op, a, d = c[1], c[2], c[3]
+    else:
+        return None
+    red = lambda x: isinstance(x, tuple) and x and x[0] == 'downcast' and x[1] == ('uninit', cell_local) and x[3] == 'Reduce'
+    a_dec = term_has(a, lambda x: x == ('uninit', cell_local))
+    d_dec = term_has(d, lambda x: x == ('uninit', cell_local))
+    if (a_dec or d_dec) and not (term_has(a, red) or term_has(d, red)):
+        return None         # a test of the cell that is not about the production of a Reduce in it
+    if a_dec == d_dec:
+        return 'same-side'
+    if op == 'cmp':
+        al = {v} if isinstance(v, int) else ({-1, 0, 1} - set(v[1]) if isinstance(v, tuple) and v[0] == 'ne' else {-1, 0, 1})
+    elif not isinstance(v, int):
+        return None
+    elif op == 'Lt':
+        al = {-1} if v else {0, 1}
+    elif op == 'Le':
+        al = {-1, 0} if v else {1}
+    else:
+        al = {0} if v else {-1, 1}
+    if d_dec:
+        return frozenset(al), a, d
+    return frozenset(-x for x in al), d, a
+
+
 def r32(facts, res):
     R = 'R3.2'
     b = facts.one(R, 'StateTable::new', crate='lrtable', name='new', impl_re=r'statetable::StateTable<')
@@ -201,7 +233,8 @@ def r32(facts, res):
     for bb, t in decs:
         w = Walker(b, facts, max_paths=2000)
         ps = w.run(t['ret'], stop=lambda x: x in headers)
-        if any(c[0][0] == 'discr' and c[0][1][0] == 'cmp' for p in ps for c in p.conds):
+        dl = t['dest']['l']
+        if any(order_constraint(c[0], c[1], dl) not in (None, 'same-side') for p in ps for c in p.conds):
             if site is not None:
                 res.lost(R, 'more than one decode site compares productions')
                 return
@@ -222,21 +255,21 @@ def r32(facts, res):
         dv = None
         eqs = {}
         cmpv = None
+        poss = None
         r_term = p_term = None
         for c, v in p.conds:
             if c[0] == 'discr' and c[1] == ('uninit', dest[0]):
                 dv = v
-            elif c[0] == 'discr' and c[1][0] == 'cmp':
-                a, d = c[1][1], c[1][2]
-                a_dec = term_has(a, lambda x: x == ('uninit', dest[0]))
-                d_dec = term_has(d, lambda x: x == ('uninit', dest[0]))
-                if a_dec == d_dec:
-                    res.bad(R, 'cmp-operands', loc_of(b, p.blocks[-1]), 'production comparison is not (new production) vs (production in cell): %s' % fmt_term(c))
-                    return
-                if d_dec:
-                    cmpv, p_term, r_term = v, a, d
-                else:
-                    cmpv, p_term, r_term = (-v if isinstance(v, int) else v), d, a
+            elif order_constraint(c, v, dest[0]) is not None and not has_call(c, 'start_prod') and not has_call(c, 'eof_token_idx'):
+                oc = order_constraint(c, v, dest[0])
+                if oc == 'same-side':
+                    if c[0] == 'discr':
+                        res.bad(R, 'cmp-operands', loc_of(b, p.blocks[-1]), 'production comparison is not (new production) vs (production in cell): %s' % fmt_term(c))
+                        return
+                    continue
+                allowed, pt, rt = oc
+                poss = allowed if poss is None else (poss & allowed)
+                p_term, r_term = pt, rt
             elif c[0] == 'bin' and c[1] in ('Eq', 'Ne'):
                 side = None
                 if has_call(c, 'start_prod'):
@@ -264,68 +297,69 @@ def r32(facts, res):
                 return None
             v = find_variant(p.end[1], 'AcceptReduceConflict') or find_variant(p.end[1], 'StateTableErrorKind')
             return v
-        key = None
-        ok = False
-        msg = ''
-        if kind == 'Reduce':
-            if is_acc:
-                key = 'reduce-in-cell/accept'
-                v = ret_err()
-                ok = v is not None and not stores and not pushes
-                msg = 'returns AcceptReduceConflict' if ok else 'accept vs reduce must be refused with an error, found end=%s' % (p.end[0],)
-            elif not_acc and cmpv in (-1, 0, 1):
-                key = 'reduce-in-cell/%s' % {-1: 'new-earlier', 0: 'same', 1: 'new-later'}[cmpv]
-                if cmpv == 0:
-                    ok = not stores and not pushes
-                    msg = 'nothing stored or recorded'
-                else:
-                    okpush = False
-                    if len(pushes) == 1:
-                        tup = pushes[0][3][1]
-                        if tup[0] == 'tuple' and len(tup[1]) == 4:
-                            first, second = strip_ref(tup[1][1]), strip_ref(tup[1][2])
-                            want = (strip_ref(p_term), strip_ref(r_term)) if cmpv == -1 else (strip_ref(r_term), strip_ref(p_term))
-                            okpush = (first, second) == want
-                    if cmpv == -1:
-                        v = find_variant(stores[0][3], 'Action') if len(stores) == 1 else None
-                        okst = v is not None and v[3] == 'Reduce' and strip_ref(v[4][0]) == strip_ref(p_term)
+        for cmpv in (sorted(poss) if (kind == 'Reduce' and not is_acc and poss) else [None]):
+            key = None
+            ok = False
+            msg = ''
+            if kind == 'Reduce':
+                if is_acc:
+                    key = 'reduce-in-cell/accept'
+                    v = ret_err()
+                    ok = v is not None and not stores and not pushes
+                    msg = 'returns AcceptReduceConflict' if ok else 'accept vs reduce must be refused with an error, found end=%s' % (p.end[0],)
+                elif not_acc and cmpv in (-1, 0, 1):
+                    key = 'reduce-in-cell/%s' % {-1: 'new-earlier', 0: 'same', 1: 'new-later'}[cmpv]
+                    if cmpv == 0:
+                        ok = not stores and not pushes
+                        msg = 'nothing stored or recorded'
                     else:
-                        okst = not stores
-                    ok = okpush and okst
-                    msg = ('earlier production wins and the pair is recorded (kept, dropped)' if ok else
-                           'expected cell%s and one record (token, kept, dropped, state); found %d stores, %d records (record ok=%s)'
-                           % (':=Reduce(new)' if cmpv == -1 else ' unchanged', len(stores), len(pushes), okpush))
-            else:
+                        okpush = False
+                        if len(pushes) == 1:
+                            tup = pushes[0][3][1]
+                            if tup[0] == 'tuple' and len(tup[1]) == 4:
+                                first, second = strip_ref(tup[1][1]), strip_ref(tup[1][2])
+                                want = (strip_ref(p_term), strip_ref(r_term)) if cmpv == -1 else (strip_ref(r_term), strip_ref(p_term))
+                                okpush = (first, second) == want
+                        if cmpv == -1:
+                            v = find_variant(stores[0][3], 'Action') if len(stores) == 1 else None
+                            okst = v is not None and v[3] == 'Reduce' and strip_ref(v[4][0]) == strip_ref(p_term)
+                        else:
+                            okst = not stores
+                        ok = okpush and okst
+                        msg = ('earlier production wins and the pair is recorded (kept, dropped)' if ok else
+                               'expected cell%s and one record (token, kept, dropped, state); found %d stores, %d records (record ok=%s)'
+                               % (':=Reduce(new)' if cmpv == -1 else ' unchanged', len(stores), len(pushes), okpush))
+                else:
+                    continue
+            elif kind == 'Accept':
+                key = 'accept-in-cell'
+                ok = ret_err() is not None and not stores
+                msg = 'returns AcceptReduceConflict' if ok else 'reduce into an Accept cell must be an error'
+            elif kind == 'Error':
+                if is_acc:
+                    key = 'empty-cell/accept'
+                    v = find_variant(stores[0][3], 'Action') if len(stores) == 1 else None
+                    ok = v is not None and v[3] == 'Accept' and not pushes
+                    msg = 'cell:=Accept'
+                elif not_acc:
+                    key = 'empty-cell/reduce'
+                    v = find_variant(stores[0][3], 'Action') if len(stores) == 1 else None
+                    ok = v is not None and v[3] == 'Reduce' and not pushes
+                    msg = 'cell:=Reduce(new)'
+                else:
+                    continue
+            elif kind == 'Shift':
+                key = 'shift-in-cell'
+                ok = p.end[0] == 'diverge'
+                msg = 'internal error (reductions are populated before shifts)'
+            if key is None:
                 continue
-        elif kind == 'Accept':
-            key = 'accept-in-cell'
-            ok = ret_err() is not None and not stores
-            msg = 'returns AcceptReduceConflict' if ok else 'reduce into an Accept cell must be an error'
-        elif kind == 'Error':
-            if is_acc:
-                key = 'empty-cell/accept'
-                v = find_variant(stores[0][3], 'Action') if len(stores) == 1 else None
-                ok = v is not None and v[3] == 'Accept' and not pushes
-                msg = 'cell:=Accept'
-            elif not_acc:
-                key = 'empty-cell/reduce'
-                v = find_variant(stores[0][3], 'Action') if len(stores) == 1 else None
-                ok = v is not None and v[3] == 'Reduce' and not pushes
-                msg = 'cell:=Reduce(new)'
+            seen.add(key)
+            if ok:
+                res.ok(R, 'row:' + key, loc_of(b, p.blocks[-1]), msg)
             else:
-                continue
-        elif kind == 'Shift':
-            key = 'shift-in-cell'
-            ok = p.end[0] == 'diverge'
-            msg = 'internal error (reductions are populated before shifts)'
-        if key is None:
-            continue
-        seen.add(key)
-        if ok:
-            res.ok(R, 'row:' + key, loc_of(b, p.blocks[-1]), msg)
-        else:
-            res.bad(R, 'row:' + key, loc_of(b, p.blocks[-1]), msg,
-                    {'function': b.path, 'blocks': p.blocks, 'conds': [(fmt_term(t), str(v)) for t, v in p.conds]})
+                res.bad(R, 'row:' + key, loc_of(b, p.blocks[-1]), msg,
+                        {'function': b.path, 'blocks': p.blocks, 'conds': [(fmt_term(t), str(v)) for t, v in p.conds]})
     for k in ['reduce-in-cell/accept', 'reduce-in-cell/new-earlier', 'reduce-in-cell/new-later', 'reduce-in-cell/same',
               'accept-in-cell', 'empty-cell/accept', 'empty-cell/reduce']:
         if k not in seen:
